@@ -1,6 +1,7 @@
 CHECK = dict(
     category="model_checking",
-    text="The justification/finalisation rule is an operator of CasperNode.tla (AddVer: >2N/3 distinct admitted validators on one link from a justified source; finalize only the direct parent checkpoint). TLC checks JustifiedHasSupermajority and FinalizedHasJustifiedChild; the replay of every explored transition compares each checkpoint's status in the stored record and in the in-memory tree, with invalid signatures in delivered and block-carried votes.",
+    text="The justification/finalisation rule is an operator of CasperNode.tla (AddVer: >2N/3 distinct admitted validators on one link from a justified source; finalize only the direct parent checkpoint). TLC checks JustifiedHasSupermajority and FinalizedHasJustifiedChild; the replay of every explored transition compares each checkpoint's status in the stored record and in the in-memory tree, with invalid signatures in delivered and block-carried votes."
+         " ValidatorSets.tla adds the validator table that changes from epoch to epoch (vote / veto transactions): header slots and verification messages count only for the parent epoch's validators in their order there; every transition (blocks with rightful, next-epoch and foreign signatures, messages of every key, restarts) is replayed on the real engine over a real store.",
     design_ref="DESIGN.md §6 C17, core node model",
     note='Bounded as C16; validator-set sizes 1, 3, 4; the across-restart part belongs to the crash family.',
     technique="TLA+ spec + TLC exhaustive model check; every TLC transition replayed into the real Chain/Casper (state projection compared)",
